@@ -104,6 +104,18 @@ func resultOf(i int) string {
 	return "success"
 }
 
+// oldSesOf: what the LOGIN record of session k names as the audit session its
+// process lived in before - usually none (the kernel's unset value), in every
+// other history position another planned session (a login shell from which a
+// new session was started: su -l, sudo -i). It says nothing about whose SSH
+// login the new session belongs to.
+func oldSesOf(plan Plan, k, i int) string {
+	if i%2 == 1 && len(plan.Sid) > 1 {
+		return plan.Sid[(k+1)%len(plan.Sid)]
+	}
+	return "4294967295"
+}
+
 // userIdx: one session in three logs in as the same account, from the same
 // address, to the same host as session 0 - as happens when one person opens
 // several connections; those identities differ only in the sshd pid.
@@ -438,7 +450,9 @@ func (x apiExec) run(plan Plan, ops []HOp) *histResult {
 				Source: identityEvent(op.K, plan.Pid[op.K], at), PID: plan.Pid[op.K],
 				CredUserID: fmt.Sprintf("cred%d@example.com", userIdx(op.K, plan.Pid[op.K]))})
 		case opRec:
-			res.err[i] = tr.AuditdEvent(vlib.APIEvent(plan.Sid[op.K], auparse.AUDIT_LOGIN, strconv.Itoa(plan.Pid[op.K]), ts, seq, "success"))
+			ev := vlib.APIEvent(plan.Sid[op.K], auparse.AUDIT_LOGIN, strconv.Itoa(plan.Pid[op.K]), ts, seq, "success")
+			ev.Data = map[string]string{"old-ses": oldSesOf(plan, op.K, i), "old-auid": "4294967295", "auid": "1000"}
+			res.err[i] = tr.AuditdEvent(ev)
 		case opEv, opExec:
 			t := evTypes[op.Typ]
 			if t == 0 {
@@ -579,7 +593,7 @@ func (rawExec) run(plan Plan, ops []HOp) (*histResult, error) {
 		case opLogin, opRelogin:
 			ok = sendLogin(common.RemoteUserLogin{Source: identityEvent(op.K, plan.Pid[op.K], time.Now().UTC()), PID: plan.Pid[op.K], CredUserID: fmt.Sprintf("cred%d@example.com", userIdx(op.K, plan.Pid[op.K]))})
 		case opRec:
-			ok = send(vlib.AuLogin(ts, seq, strconv.Itoa(plan.Pid[op.K]), plan.Sid[op.K]))
+			ok = send(vlib.AuLoginFrom(ts, seq, strconv.Itoa(plan.Pid[op.K]), plan.Sid[op.K], oldSesOf(plan, op.K, i)))
 		case opEv:
 			typ := op.Typ
 			if !rawUserTypes[typ] {
